@@ -148,7 +148,7 @@ coop.yieldify(bt.BaseTrigger, ["_should_trigger_cron_condition"], all_names=ALL)
 coop.yieldify(mt.MemTrigger, ["get_last_cron_execution", "store_last_cron_execution"], all_names=ALL)
 coop.yieldify(st.SQLiteTrigger, ["get_last_cron_execution", "store_last_cron_execution"], all_names=ALL, sql=True)
 
-def first_tick(kind, has_last, first, slices):
+def first_tick(kind, has_last, first, slices, tolerate=()):
     """two trigger loops evaluate the same cron condition at the same scheduled instant"""
     global LAST_DETAIL
     reset_uuid()
@@ -166,8 +166,15 @@ def first_tick(kind, has_last, first, slices):
     coop.close_all_connections()
     fired = [x.result is not None for x in actors]
     errs = [repr(x.error) for x in actors if x.error is not None]
-    LAST_DETAIL = {"kind": kind, "has_last_execution": has_last, "fired": fired, "errors": errs, "schedule": res["schedule"]}
-    return not errs and sum(fired) == 1
+    why = None
+    if errs:
+        why = "C13:cron:evaluation-raised"
+    elif sum(fired) == 0:
+        why = "C13:cron:tick-fired-by-nobody"
+    elif sum(fired) == 2:
+        why = "C13:cron:first-tick-fired-by-two-loops" if not has_last else "C13:cron:tick-fired-by-two-loops:" + kind
+    LAST_DETAIL = {"kind": kind, "has_last_execution": has_last, "fired": fired, "errors": errs, "schedule": res["schedule"], "why": why}
+    return why is None or why in tolerate
 
 def cron_tick_with_last___KIND__(first: int, k1: int, k2: int) -> bool:
     """
@@ -176,6 +183,15 @@ def cron_tick_with_last___KIND__(first: int, k1: int, k2: int) -> bool:
     """
     with NoTracing():
         return first_tick(["mem", "sqlite"][__KIND__], True, first, [k1, k2])
+
+def first_tick_otherwise___KIND__(first: int, k1: int, k2: int) -> bool:
+    """
+    pre: 0 <= first <= 1 and 0 <= k1 <= 40 and 0 <= k2 <= 40
+    post: _
+    """
+    # the region of the listed finding, with exactly that outcome tolerated: nothing else may go wrong there
+    with NoTracing():
+        return first_tick(["mem", "sqlite"][__KIND__], False, first, [k1, k2], __TOL__)
 
 def finding_first_tick___KIND__(first: int, k1: int, k2: int) -> bool:
     """
@@ -202,11 +218,19 @@ def run(ctx: Ctx) -> None:
     # canary: a store lock that never blocks must let both claimers win within the same bounds
     src = CLAIM.replace("__NEVER__", "True").replace("__KIND__", "0")
     ctx.ch_batch("c13claim_canary", src, [Cond("claim2_0", "refute", 300)])
+    fk = "C13:cron:first-tick-fired-by-two-loops"
+    tol = repr((fk,)) if ctx.known_status(fk) == "known" else "()"
+    head, funcs = CRONRACE.split("def cron_tick_with_last___KIND__", 1)
+    funcs = "def cron_tick_with_last___KIND__" + funcs
+    rsrc, rconds = head, []
     for kind, name in ((0, "mem"), (1, "sqlite")):
-        ctx.ch_batch(f"c13cronrace_{name}", CRONRACE.replace("__KIND__", str(kind)), [
-            Cond(f"cron_tick_with_last_{kind}", "confirm", 900, keyfn=lambda a, k: f"C13:cron:tick-fired-by-two-loops:{name}"),
-            Cond(f"finding_first_tick_{kind}", "finding", 600, key="C13:cron:first-tick-fired-by-two-loops",
-                 what="two trigger loops evaluate a cron condition that has never fired at the same scheduled instant: store_last_cron_execution(expected=None) is unconditional, both fire")])
+        rsrc += funcs.replace("__KIND__", str(kind)).replace("__TOL__", tol)
+        rconds += [
+            Cond(f"cron_tick_with_last_{kind}", "confirm", 900, keyfn=_key_from_replay),
+            Cond(f"first_tick_otherwise_{kind}", "confirm", 900, keyfn=_key_from_replay),
+            Cond(f"finding_first_tick_{kind}", "finding", 600, key=fk, keyfn=_key_from_replay,
+                 what="two trigger loops evaluate a cron condition that has never fired at the same scheduled instant: store_last_cron_execution(expected=None) is unconditional, both fire")]
+    ctx.ch_batch("c13cronrace", rsrc, rconds)
     ctx.bounds["cron race"] = "2 concurrent evaluations of one cron condition at a scheduled instant, 2 preemptions with slices 0..40; with a previous execution on record (verify) and without (known finding); in-memory (two threads) and SQLite (two processes)"
     ctx.functions_encoded += ["BaseTrigger._should_trigger_cron_condition + Mem/SQLite get/store_last_cron_execution (line / statement-level twins)",
                               "BaseTrigger.trigger_loop_iteration/emit_event/record_valid_conditions/get_valid_conditions/clear_valid_conditions",
